@@ -406,3 +406,136 @@ Proof.
   split; [exact LC.sp_ok|]. split; [repeat constructor; intros []|]. split; [vm_compute; repeat constructor; intros []|].
   split; [exact LC.cond|]. repeat split; vm_compute; reflexivity.
 Qed.
+
+(* ---------------------------------------------------------------- Grounder (second Layer A round).
+   [ground_compile smp tuples nm P]: for every action i and every parameter tuple of [tuples i] (what
+   GrounderHelper.get_possible_parameters enumerates: type-correct values, static-fluent pruning included) the
+   parameter-less action [g_action smp a args] — parameters substituted by constants ([Ground.psubst] = the Substituter on
+   manager-built expressions, C01_grounded_substitution_is_substituter), target arguments / value / condition of every
+   effect and the conjunction of the preconditions simplified, an effect with a FALSE condition dropped, forall variables
+   that are no longer free dropped — unless the precondition simplified to FALSE or the ground effects conflict
+   syntactically; [gt_map_back] = lift_action_instance.
+   Hypotheses: [smp_exact_on P G smp] — the grounder's Simplifier(env, problem) keeps value and definedness on the states
+   of G under every variable instance (it folds static fluents to their INITIAL values: G = the states agreeing with the
+   initial state on static fluents; the real Simplifier only refines: C11); G contains s0 and is closed under steps;
+   unique action names and pairwise different ground names (fix 206e087, C08); [instances_ok]: no forall variable of an
+   effect vanishes ([vars_kept], else finding C01-forall-variable-vanishes) and effect targets are defined
+   ([g_targets_total], because FALSE-conditioned effects are dropped).
+   The key lemma is C01's substitution lemma psubst_eval; the ground action takes EXACTLY the original step: *)
+Require Import UPV.Planning.Ground UPV.Compilers.LayerA_Ground UPV.Proofs.LayerA_Ground_proofs.
+
+Theorem C06_LA_ground_step :
+  forall (smp : expr -> expr) (tuples : N -> list (list value)) (nm : N -> nat -> N) (P : problem) (G : state -> Prop),
+    smp_exact_on P G smp ->
+  forall (s : state) (a : action) (args : list value) (g : action),
+    G s -> vars_kept smp a args -> g_targets_total P a args -> g_action smp a args = Some g ->
+    spec_step false (ground_compile smp tuples nm P) s g [] = spec_step false P s a args.
+Proof. exact ground_step. Qed.
+Print Assumptions C06_LA_ground_step.
+
+Theorem C06_LA_ground_sound :
+  forall (smp : expr -> expr) (tuples : N -> list (list value)) (nm : N -> nat -> N) (P : problem) (G : state -> Prop),
+    smp_exact_on P G smp -> unique_ids P -> unique_ids (ground_compile smp tuples nm P) ->
+    (forall s aid a args t, G s -> lookup_action P aid = Some a -> spec_step false P s a args = Some t -> G t) ->
+    instances_ok smp tuples P ->
+  forall (s0 : state) (pi' : list (N * list value)), G s0 ->
+    valid_plan false (ground_compile smp tuples nm P) s0 pi' = true ->
+    valid_plan false P s0 (gt_map_back (ground_table smp tuples nm P) pi') = true.
+Proof. exact ground_sound. Qed.
+Print Assumptions C06_LA_ground_sound.
+
+(* ... through the same states: the two runs end in the SAME state for every plan, hence for every prefix *)
+Theorem C06_LA_ground_same_states :
+  forall (smp : expr -> expr) (tuples : N -> list (list value)) (nm : N -> nat -> N) (P : problem) (G : state -> Prop),
+    smp_exact_on P G smp -> unique_ids P -> unique_ids (ground_compile smp tuples nm P) ->
+    (forall s aid a args t, G s -> lookup_action P aid = Some a -> spec_step false P s a args = Some t -> G t) ->
+    instances_ok smp tuples P ->
+  forall (pi' : list (N * list value)) (s t : state), G s ->
+    run (ground_compile smp tuples nm P) (spec_step false (ground_compile smp tuples nm P)) s pi' = Some t ->
+    run P (spec_step false P) s (gt_map_back (ground_table smp tuples nm P) pi') = Some t.
+Proof. exact ground_run_sound. Qed.
+Print Assumptions C06_LA_ground_same_states.
+
+(* non-vacuity: type 0 = {1, 2}, Boolean fluent p/1, action 0 (parameter 7): pre not p(x), eff p(x) := true and
+   g := true when x == 2 (the condition simplifies per instance in the real grounder; here smp is the identity) *)
+Module LG.
+  Definition px : expr := EFluent 0%N [EParam 7%N].
+  Definition mark : action :=
+    {| a_params := [7%N]; a_pre := [ENot px];
+       a_effs := [{| e_fl := 0%N; e_args := [EParam 7%N]; e_val := EBool true; e_cond := EBool true; e_kind := KAssign;
+                     e_vars := []; e_isbool := true |};
+                  {| e_fl := 1%N; e_args := []; e_val := EBool true; e_cond := EEquals (EParam 7%N) (EObj 2%N);
+                     e_kind := KAssign; e_vars := []; e_isbool := true |}] |}.
+  Definition Pg : problem :=
+    {| p_objs := [(0%N, [1%N; 2%N])]; p_ifun := [];
+       p_fluents := [{| fd_id := 0%N; fd_sig := [0%N]; fd_ty := FBool |}; {| fd_id := 1%N; fd_sig := []; fd_ty := FBool |}];
+       p_actions := [(0%N, mark)]; p_goals := [EFluent 0%N [EObj 1%N]; EFluent 1%N []]; p_invs := [] |}.
+  Definition tup (i : N) : list (list value) := [[VObj 1%N]; [VObj 2%N]].
+  Definition nm (i : N) (k : nat) : N := (30 + N.of_nat k)%N.
+  Definition G (s : state) : Prop := True.
+  Definition sg0 : state := fun f a => Some (VBool false).
+  Lemma smp_ok : smp_exact_on Pg G LA.idsmp. Proof. intros e s vs J _ _. reflexivity. Qed.
+  Lemma inst_ok : instances_ok LA.idsmp tup Pg.
+  Proof.
+    intros i a args [H|[]] Hargs. inversion H; subst. split.
+    - intros e ge [<-|[<-|[]]] Hg; unfold g_effect in Hg; cbn in Hg;
+        destruct Hargs as [<-|[<-|[]]]; cbn in Hg; inversion Hg; reflexivity.
+    - intros s e J [<-|[<-|[]]] HJ; destruct Hargs as [<-|[<-|[]]]; cbn in HJ; destruct HJ as [<-|[]]; discriminate.
+  Qed.
+End LG.
+
+Example C06_LA_ground_sound_nonvacuous :
+  smp_exact_on LG.Pg LG.G LA.idsmp /\ unique_ids LG.Pg /\ unique_ids (ground_compile LA.idsmp LG.tup LG.nm LG.Pg) /\
+  instances_ok LA.idsmp LG.tup LG.Pg /\
+  map fst (p_actions (ground_compile LA.idsmp LG.tup LG.nm LG.Pg)) = [30%N; 31%N] /\
+  valid_plan false (ground_compile LA.idsmp LG.tup LG.nm LG.Pg) LG.sg0 [(31%N, []); (30%N, [])] = true /\
+  gt_map_back (ground_table LA.idsmp LG.tup LG.nm LG.Pg) [(31%N, []); (30%N, [])] = [(0%N, [VObj 2%N]); (0%N, [VObj 1%N])] /\
+  valid_plan false LG.Pg LG.sg0 [(0%N, [VObj 2%N]); (0%N, [VObj 1%N])] = true.
+Proof.
+  split; [exact LG.smp_ok|]. split; [repeat constructor; intros []|].
+  split; [vm_compute; repeat constructor; cbn; intuition discriminate|].
+  split; [exact LG.inst_ok|]. repeat split; vm_compute; reflexivity.
+Qed.
+
+(* ---------------------------------------------------------------- NegativeConditionsRemover (second Layer A round,
+   PARTIAL: the model, the effect level and the refutation are proved; the plan-level theorem is not finished and is
+   therefore NOT stated — the compiler stays validated by Layer B).  [neg_compile nmap rw smp P]: conditions rewritten by
+   [rw] (Nnf + simplify + walk_not, external), every effect on a fluent f with a negation fluent nf mirrored by an effect
+   on nf with value simplify(Not(value)), appended after the action's own effects.
+   Proved, under "nf = not f" ([nrel_interp]), [rw_ok] (the rewriting is exact on the conditions of P under the
+   invariant), [smp_exact], and per effect: it mentions no negation fluent and, when its fluent is negated, it is an
+   assignment of a Boolean constant: the compiled action fires EXACTLY the original effect instances followed by their
+   mirrors ([macts]). *)
+Require Import UPV.Compilers.LayerA_Neg UPV.Proofs.LayerA_Neg_proofs.
+
+Theorem C06_LA_ncr_fired_partial :
+  forall (nmap : list (N * N)) (rw smp : expr -> expr) (P : problem),
+    rw_ok nmap rw P -> smp_exact smp ->
+  forall (I I' : interp) (effs : list effect),
+    nrel_interp nmap I I' -> Forall (eff_hyp nmap P) effs ->
+    fired false I' (n_effects nmap rw smp effs) =
+    match fired false I effs with Some acts => Some (acts ++ macts nmap acts) | None => None end.
+Proof. intros nmap rw smp P Hrw Hsmp. exact (n_effects_fired nmap rw smp P Hrw Hsmp). Qed.
+Print Assumptions C06_LA_ncr_fired_partial.
+
+(* what the plan-level proof forces: the successor states are related again only if the assignments that fire on one
+   ground negated fluent carry ONE value ([ncr_safe]: decidable sufficient condition).  Without it soundness fails:
+   f := false; if c then f := true  keeps f true by add-after-delete, and the mirrored pair keeps nf true as well, so
+   the compiled plan [a; b] (b needs not f) is valid and its image is not.  The real compiler produces exactly the
+   model's compiled problem on this input and the real validator gives VALID / INVALID: it is the recorded finding
+   C06-ncr-add-after-delete, not a new defect. *)
+Theorem C06_LA_ncr_add_after_delete_refuted :
+  exists (nmap : list (N * N)) (P : problem) (s s' : state) (pi : list (N * list value)),
+    nmap_ok nmap P = true /\ problem_clean nmap P = true /\ ncr_safe nmap P = false /\ neg_rel nmap s s' /\
+    valid_plan false (neg_compile nmap (nrw (ng nmap)) (fun e => e) P) s' pi = true /\
+    valid_plan false P s pi = false.
+Proof.
+  exists NegWitness.nm, NegWitness.Pw, NegWitness.sw, NegWitness.sw', NegWitness.plan. exact ncr_unsafe_witness.
+Qed.
+Print Assumptions C06_LA_ncr_add_after_delete_refuted.
+
+Definition C06_LA_ncr_sound_goal : Prop :=
+  forall (nmap : list (N * N)) (rw smp : expr -> expr) (P : problem),
+    nmap_ok nmap P = true -> problem_clean nmap P = true -> ncr_safe nmap P = true -> rw_ok nmap rw P -> smp_exact smp ->
+  forall (s s' : state) (pi : list (N * list value)), neg_rel nmap s s' ->
+    valid_plan false (neg_compile nmap rw smp P) s' pi = valid_plan false P s pi.
